@@ -40,6 +40,52 @@ SUDOKU_3 = [
 KNAPSACK_TEST = ([40, 40, 38, 38, 36, 36, 34, 34, 32, 32, 30, 30, 28, 28, 26, 26, 24, 24, 22, 22], 55, 54)
 
 
+GOLOMB_RULERS = {  # optimal rulers from the literature (validated by sim/modelworker.v_golomb before use)
+    4: [0, 1, 4, 6], 5: [0, 1, 4, 9, 11], 6: [0, 1, 4, 10, 12, 17], 7: [0, 1, 4, 10, 18, 23, 25],
+    8: [0, 1, 4, 9, 15, 22, 32, 34], 9: [0, 1, 5, 12, 25, 27, 35, 41, 44], 10: [0, 1, 6, 10, 23, 26, 34, 41, 53, 55],
+    11: [0, 1, 4, 13, 28, 33, 47, 54, 64, 70, 72], 12: [0, 2, 6, 24, 29, 40, 43, 55, 68, 75, 76, 85],
+    13: [0, 2, 5, 25, 37, 43, 59, 70, 85, 89, 98, 99, 106], 14: [0, 4, 6, 20, 35, 52, 59, 77, 78, 86, 89, 99, 122, 127],
+}
+
+
+def golomb_vector(marks, sym):
+    n = len(marks)
+    if sym and not (marks[1] - marks[0] < marks[-1] - marks[-2]):
+        marks = [marks[-1] - m for m in reversed(marks)]  # the mirror image is the representative kept by symmetry breaking
+    return [marks[j] - marks[i] for i in range(n - 1) for j in range(i + 1, n)]
+
+
+def queens_solution(n):
+    """Explicit construction (Hoffman, Loessi, Moore 1969) of one solution for n >= 4."""
+    if n % 6 not in (2, 3):
+        cols = list(range(2, n + 1, 2)) + list(range(1, n + 1, 2))
+    elif n % 6 == 2:
+        ev = list(range(2, n + 1, 2))
+        od = [3, 1] + list(range(7, n + 1, 2)) + [5]
+        cols = ev + od
+    else:
+        ev = list(range(4, n + 1, 2)) + [2]
+        od = list(range(5, n + 1, 2)) + [1, 3]
+        cols = ev + od
+    q = [c - 1 for c in cols]
+    return q + [q[i] + i for i in range(n)] + [q[i] - i for i in range(n)]
+
+
+def siamese(n):
+    """Magic square of odd order by the Siamese method, values 0..n^2-1, row major."""
+    m = [[0] * n for _ in range(n)]
+    i, j = 0, n // 2
+    for k in range(n * n):
+        m[i][j] = k
+        i2, j2 = (i - 1) % n, (j + 1) % n
+        if m[i2][j2] or (i2, j2) == (0, n // 2) and k > 0:
+            i2, j2 = (i + 1) % n, j
+        if k + 1 < n * n and (m[i2][j2] != 0 or (i2 == 0 and j2 == n // 2)):
+            i2, j2 = (i + 1) % n, j
+        i, j = i2, j2
+    return [v for row in m for v in row]
+
+
 def lcg(seed):
     x = seed * 2654435761 % (1 << 32)
     while True:
@@ -71,6 +117,16 @@ def points(tier: str) -> List[dict]:
         for sym in (True, False):
             P.append({"spec": {"model": "golomb", "n": n, "sym": sym, "op": "opt"}, "optimum": GOLOMB[n]})
         P.append({"spec": {"model": "golomb", "n": n, "sym": True, "op": "opt", "cfg": {"golomb_alg": True}}, "optimum": GOLOMB[n], "fix_cons": True})
+    # "the model accepts a known valid object" (sizes far beyond search reach): fixed to the object, exactly 1 solution
+    for n in sorted(GOLOMB_RULERS):
+        for sym in (False, True):
+            P.append({"spec": {"model": "golomb", "n": n, "sym": sym, "fix_solution": golomb_vector(GOLOMB_RULERS[n], sym)}, "count": 1, "accepts": True})
+    for n in (8, 9, 12, 14, 15, 20, 27, 50):
+        P.append({"spec": {"model": "queens", "n": n, "fix_solution": queens_solution(n)}, "count": 1, "accepts": True})
+    for n in (3, 5, 7, 9):
+        P.append({"spec": {"model": "magic_square", "n": n, "sym": False, "fix_solution": siamese(n)}, "count": 1, "accepts": True})
+    for n in (5, 8, 12):
+        P.append({"spec": {"model": "latin", "n": n, "fix_solution": [(i + j) % n for i in range(n) for j in range(n)]}, "count": 1, "accepts": True})
     for v, b, r, k, l in ((3, 3, 2, 2, 1), (4, 6, 3, 2, 1), (4, 4, 3, 3, 2), (5, 5, 4, 4, 3), (3, 6, 4, 2, 2)):
         P.append({"spec": {"model": "bibd", "v": v, "b": b, "r": r, "k": k, "l": l, "sym": False, "brute": True}, "count": "brute"})
         P.append({"spec": {"model": "bibd", "v": v, "b": b, "r": r, "k": k, "l": l, "sym": True, "brute": True}, "sat": "brute"})
@@ -193,7 +249,11 @@ def run(ch: Choices, focus: str = "C20", params: Optional[dict] = None) -> dict:
                     spec["seed"] = 1 + ch.choose(1000, "mpseed")
     spec["cfg"] = cfg
     res = execute(spec)
-    ctx = f"[{ {k: v for k, v in spec.items() if k not in ('givens', 'costs', 'weights', 'volumes')} }] "
+    ctx = f"[{ {k: v for k, v in spec.items() if k not in ('givens', 'costs', 'weights', 'volumes', 'fix_solution')} }] "
+    if pt.get("accepts"):
+        out["probes"]["known_objects_offered"] += 1
+        if res.get("rejected_by_domains"):
+            viol("model-rejects-known-object", ctx + f"a known valid object is excluded by the model's domains: {res['rejected_by_domains']}")
     out["probes"]["model:" + spec["model"]] += 1
     out["probes"]["with_simulated_workers"] += 1 if spec.get("workers") else 0
     out["probes"]["symmetry_breaking_on" if spec.get("sym", True) else "symmetry_breaking_off"] += 1
@@ -240,6 +300,6 @@ def run(ch: Choices, focus: str = "C20", params: Optional[dict] = None) -> dict:
     out["result_count"] = res.get("count")
     out["log_sha"] = sha([spec, {k: res.get(k) for k in ("outcome", "count", "optimum", "invalid")}])
     out["key"] = sha(spec)[:16]
-    out["sample"] = {"spec": {k: v for k, v in spec.items() if k not in ("givens", "costs", "weights", "volumes")},
+    out["sample"] = {"spec": {k: v for k, v in spec.items() if k not in ("givens", "costs", "weights", "volumes", "fix_solution")},
                      "count": res.get("count"), "optimum": res.get("optimum"), "delivery_order": res.get("delivery_order")}
     return out
